@@ -16,9 +16,16 @@ package main
 
 import (
 	"bytes"
+	"crypto/ecdsa"
+	"crypto/elliptic"
+	crand "crypto/rand"
+	"crypto/tls"
+	"crypto/x509"
+	"crypto/x509/pkix"
 	"errors"
 	"fmt"
 	"io"
+	"math/big"
 	"math/rand"
 	"net"
 	"runtime"
@@ -40,6 +47,7 @@ type op struct {
 	E bool   `json:"e,omitempty"` // accept/serveconn: Close of this connection's net.Conn returns an error
 	M int    `json:"m,omitempty"` // accept/serveconn: 0 = sends a request, 1 = connects and closes without sending anything, 2 = sends garbage and closes
 	B bool   `json:"b,omitempty"` // hijack: with HijackSetNoResponse(true)
+	T bool   `json:"t,omitempty"` // accept/serveconn: a TLS connection (tls.Server over the scripted transport; wrapped in perIPTLSConn)
 }
 
 type desc struct {
@@ -114,6 +122,8 @@ type sconn struct {
 	closes   int
 	out      []byte
 	onClose  func()
+	isTLS    bool // the server side is a tls.Conn over this transport: what the client sees in plaintext is in plain
+	plain    []byte
 	closeErr bool // Close reports an error (after closing): a tls.Conn that cannot send close_notify, a custom net.Conn
 	blocked  bool // a Read is parked waiting for input
 	hold     bool // a parked Read does not notice Close until released (a goroutine that is slow to be scheduled)
@@ -165,6 +175,7 @@ func (c *sconn) Write(p []byte) (int, error) {
 		return 0, errors.New("write: broken pipe")
 	}
 	c.out = append(c.out, p...)
+	c.cond.Broadcast()
 	return len(p), nil
 }
 
@@ -215,10 +226,14 @@ func (c *sconn) nCloses() int {
 func (c *sconn) status() int {
 	c.mu.Lock()
 	defer c.mu.Unlock()
-	if len(c.out) < 12 || !bytes.HasPrefix(c.out, []byte("HTTP/1.1 ")) {
+	out := c.out
+	if c.isTLS {
+		out = c.plain
+	}
+	if len(out) < 12 || !bytes.HasPrefix(out, []byte("HTTP/1.1 ")) {
 		return 0
 	}
-	n, err := strconv.Atoi(string(c.out[9:12]))
+	n, err := strconv.Atoi(string(out[9:12]))
 	if err != nil {
 		return 0
 	}
@@ -230,6 +245,52 @@ func (c *sconn) RemoteAddr() net.Addr             { return c.addr }
 func (c *sconn) SetDeadline(time.Time) error      { return nil }
 func (c *sconn) SetReadDeadline(time.Time) error  { return nil }
 func (c *sconn) SetWriteDeadline(time.Time) error { return nil }
+
+// clientEnd is the client's view of a scripted connection: it reads what the server wrote and writes what the server will read.
+// A tls.Client runs over it when the server side is a tls.Conn (MaxConnsPerIP then wraps it in perIPTLSConn).
+type clientEnd struct {
+	c  *sconn
+	rd int
+}
+
+func (e *clientEnd) Read(p []byte) (int, error) {
+	c := e.c
+	c.mu.Lock()
+	defer c.mu.Unlock()
+	for e.rd >= len(c.out) && !c.closed && !c.eof {
+		c.cond.Wait()
+	}
+	if e.rd >= len(c.out) {
+		return 0, io.EOF
+	}
+	n := copy(p, c.out[e.rd:])
+	e.rd += n
+	return n, nil
+}
+func (e *clientEnd) Write(p []byte) (int, error) {
+	e.c.feed(string(p)) // like a TCP send buffer: accepted even when the peer has already closed
+	return len(p), nil
+}
+func (e *clientEnd) Close() error                     { e.c.setEOF(); return nil }
+func (e *clientEnd) LocalAddr() net.Addr              { return e.c.addr }
+func (e *clientEnd) RemoteAddr() net.Addr             { return e.c.LocalAddr() }
+func (e *clientEnd) SetDeadline(time.Time) error      { return nil }
+func (e *clientEnd) SetReadDeadline(time.Time) error  { return nil }
+func (e *clientEnd) SetWriteDeadline(time.Time) error { return nil }
+
+var serverTLS = func() *tls.Config {
+	key, err := ecdsa.GenerateKey(elliptic.P256(), crand.Reader)
+	if err != nil {
+		panic(err)
+	}
+	tmpl := &x509.Certificate{SerialNumber: big.NewInt(1), Subject: pkix.Name{CommonName: "h"}, NotBefore: time.Now().Add(-time.Hour),
+		NotAfter: time.Now().Add(24 * time.Hour), DNSNames: []string{"h"}}
+	der, err := x509.CreateCertificate(crand.Reader, tmpl, tmpl, &key.PublicKey, key)
+	if err != nil {
+		panic(err)
+	}
+	return &tls.Config{Certificates: []tls.Certificate{{Certificate: [][]byte{der}, PrivateKey: key}}}
+}()
 
 // ---- scripted listener ---------------------------------------------------------------------------------------
 
@@ -376,8 +437,10 @@ type connRec struct {
 	hjDone        chan struct{}
 	wrapped       bool // harness' expectation: MaxConnsPerIP > 0 and an IPv4 address
 	liveAtArrival int
-	mode          int  // 0 request, 1 silent client, 2 garbage
-	noReq         bool // served without any handler call (silent / garbage client)
+	srv           net.Conn  // what is handed to Serve / ServeConn: the scripted connection itself, or a tls.Conn over it
+	cl            *tls.Conn // the client's tls.Conn
+	mode          int       // 0 request, 1 silent client, 2 garbage
+	noReq         bool      // served without any handler call (silent / garbage client)
 	hjNoResp      bool
 	serving       bool // inside the request loop (controller's view)
 	hijacked      bool
@@ -521,7 +584,7 @@ func (rp *replayer) emit(labels []string) {
 	rp.blocks = append(rp.blocks, fmt.Sprintf("(Blk %s %s)", hlib.List(labels), o))
 }
 
-func (rp *replayer) newConn(ai int, loop int, closeErr bool, mode int) *connRec {
+func (rp *replayer) newConn(ai int, loop int, closeErr bool, mode int, useTLS bool) *connRec {
 	a := addrs[ai%len(addrs)]
 	id := len(rp.conns)
 	r := &connRec{id: id, a: a, c: newConn(id, a.addr), loop: loop, enterCh: make(chan struct{}, 8), exitCh: make(chan struct{}, 8), cmd: make(chan int, 1),
@@ -536,14 +599,44 @@ func (rp *replayer) newConn(ai int, loop int, closeErr bool, mode int) *connRec 
 		}
 	}
 	r.mode = mode
-	switch mode {
-	case 1:
-		r.c.setEOF()
-	case 2:
-		r.c.feed("BOGUS\r\n\r\n")
-		r.c.setEOF()
-	default:
-		r.c.feed(fmt.Sprintf("GET /%d HTTP/1.1\r\nHost: h\r\n\r\n", id))
+	r.srv = r.c
+	first := fmt.Sprintf("GET /%d HTTP/1.1\r\nHost: h\r\n\r\n", id)
+	if useTLS {
+		r.c.isTLS = true
+		r.srv = tls.Server(r.c, serverTLS)
+		switch mode {
+		case 1:
+			r.c.setEOF()
+		case 2:
+			r.c.feed("BOGUS\r\n\r\n")
+			r.c.setEOF()
+		default:
+			r.cl = tls.Client(&clientEnd{c: r.c}, &tls.Config{InsecureSkipVerify: true})
+			cl, c := r.cl, r.c
+			go func() { // handshake (as soon as the server takes part), first request, then collect what the server sends
+				cl.Write([]byte(first)) // an error here (handshake refused) shows up on the read side as well
+				buf := make([]byte, 4096)
+				for {
+					n, err := cl.Read(buf)
+					c.mu.Lock()
+					c.plain = append(c.plain, buf[:n]...)
+					c.mu.Unlock()
+					if err != nil {
+						return
+					}
+				}
+			}()
+		}
+	} else {
+		switch mode {
+		case 1:
+			r.c.setEOF()
+		case 2:
+			r.c.feed("BOGUS\r\n\r\n")
+			r.c.setEOF()
+		default:
+			r.c.feed(first)
+		}
 	}
 	rp.mu.Lock()
 	rp.conns = append(rp.conns, r)
@@ -639,17 +732,17 @@ func (rp *replayer) waitOutcome(r *connRec) (served bool) {
 	}
 }
 
-func (rp *replayer) accept(li, ai int, closeErr bool, mode int) {
+func (rp *replayer) accept(li, ai int, closeErr bool, mode int, useTLS bool) {
 	ks := rp.runningLoops()
 	if len(ks) == 0 {
 		return
 	}
 	k := ks[li%len(ks)]
 	l := rp.loops[k]
-	r := rp.newConn(ai, k, closeErr, mode)
+	r := rp.newConn(ai, k, closeErr, mode, useTLS)
 	before := l.ln.waiting.Load()
 	select {
-	case l.ln.ch <- r.c:
+	case l.ln.ch <- r.srv:
 	case <-time.After(waitLimit):
 		rp.stuck = true
 		r.stuck = true
@@ -658,6 +751,9 @@ func (rp *replayer) accept(li, ai int, closeErr bool, mode int) {
 	served := rp.waitOutcome(r)
 	if !waitFor(func() bool { return l.ln.waiting.Load() == before+1 }) {
 		rp.stuck = true
+	}
+	if r.c.isTLS {
+		quiet() // the client's tls.Conn has decrypted whatever the server wrote
 	}
 	labels := []string{fmt.Sprintf("LAccept %s %s", n(k), r.a.coq)}
 	if r.wrapped {
@@ -697,10 +793,10 @@ func (rp *replayer) accept(li, ai int, closeErr bool, mode int) {
 	rp.emit(labels)
 }
 
-func (rp *replayer) serveConn(ai int, closeErr bool, mode int) {
-	r := rp.newConn(ai, -1, closeErr, mode)
+func (rp *replayer) serveConn(ai int, closeErr bool, mode int, useTLS bool) {
+	r := rp.newConn(ai, -1, closeErr, mode, useTLS)
 	rp.nSC++
-	go func() { r.done <- rp.s.ServeConn(r.c) }()
+	go func() { r.done <- rp.s.ServeConn(r.srv) }()
 	labels := []string{"LServeConn " + r.a.coq}
 	if r.wrapped {
 		labels = append(labels, "LRegister "+n(r.id))
@@ -715,6 +811,9 @@ func (rp *replayer) serveConn(ai int, closeErr bool, mode int) {
 		rp.stuck = true
 		r.stuck = true
 		return
+	}
+	if r.c.isTLS {
+		quiet()
 	}
 	switch {
 	case served:
@@ -768,7 +867,11 @@ func (rp *replayer) next(k int) {
 	if r == nil {
 		return
 	}
-	r.c.feed(fmt.Sprintf("GET /%d HTTP/1.1\r\nHost: h\r\n\r\n", r.id))
+	if r.cl != nil {
+		r.cl.Write([]byte(fmt.Sprintf("GET /%d HTTP/1.1\r\nHost: h\r\n\r\n", r.id)))
+	} else {
+		r.c.feed(fmt.Sprintf("GET /%d HTTP/1.1\r\nHost: h\r\n\r\n", r.id))
+	}
 	if !r.idle {
 		r.cmd <- cmdNext
 		rp.waitExit(r)
@@ -914,9 +1017,9 @@ func (rp *replayer) run() {
 		case "servestop":
 			rp.serveStop(o.L)
 		case "accept":
-			rp.accept(o.L, o.A, o.E, o.M)
+			rp.accept(o.L, o.A, o.E, o.M, o.T)
 		case "serveconn":
-			rp.serveConn(o.A, o.E, o.M)
+			rp.serveConn(o.A, o.E, o.M, o.T)
 		case "next":
 			rp.next(o.A)
 		case "idle":
@@ -1349,6 +1452,7 @@ func genReplay(r *rand.Rand) desc {
 		return r.Intn(len(addrs))
 	}
 	failing := r.Intn(3) == 0 // in a third of the cases many connections fail on Close
+	useTLS := r.Intn(5) == 0  // a fifth of the cases mix in TLS connections
 	mode := func() int {
 		switch r.Intn(12) {
 		case 0:
@@ -1357,6 +1461,16 @@ func genReplay(r *rand.Rand) desc {
 			return 2
 		}
 		return 0
+	}
+	// a TLS client that sends nothing / garbage cannot tell a rejection from being dropped (no plaintext reaches it): the generator keeps
+	// the two options apart, the corpus has the combination where no limit is hit
+	tflag := false
+	tmode := func() int {
+		tflag = useTLS && r.Intn(2) == 0
+		if tflag {
+			return 0
+		}
+		return mode()
 	}
 	cerr := func() bool {
 		if failing {
@@ -1376,14 +1490,14 @@ func genReplay(r *rand.Rand) desc {
 		case x < 40:
 			switch {
 			case class < 4:
-				d.Ops = append(d.Ops, op{K: "serveconn", A: addr(), E: cerr(), M: mode()})
+				d.Ops = append(d.Ops, op{K: "serveconn", A: addr(), E: cerr(), M: tmode(), T: tflag})
 			case class < 8:
-				d.Ops = append(d.Ops, op{K: "accept", A: addr(), L: r.Intn(3), E: cerr(), M: mode()})
+				d.Ops = append(d.Ops, op{K: "accept", A: addr(), L: r.Intn(3), E: cerr(), M: tmode(), T: tflag})
 			default:
 				if r.Intn(2) == 0 {
-					d.Ops = append(d.Ops, op{K: "serveconn", A: addr(), E: cerr(), M: mode()})
+					d.Ops = append(d.Ops, op{K: "serveconn", A: addr(), E: cerr(), M: tmode(), T: tflag})
 				} else {
-					d.Ops = append(d.Ops, op{K: "accept", A: addr(), L: r.Intn(3), E: cerr(), M: mode()})
+					d.Ops = append(d.Ops, op{K: "accept", A: addr(), L: r.Intn(3), E: cerr(), M: tmode(), T: tflag})
 				}
 			}
 		case x < 58:
@@ -1441,8 +1555,10 @@ func ops(s string) []op {
 		}
 		b := strings.HasSuffix(f, "^")
 		f = strings.TrimSuffix(f, "^")
+		t := strings.HasSuffix(f, "+")
+		f = strings.TrimSuffix(f, "+")
 		parts := strings.Split(f, ":")
-		o := op{K: parts[0], E: e, M: m, B: b}
+		o := op{K: parts[0], E: e, M: m, B: b, T: t}
 		if len(parts) > 1 {
 			o.A, _ = strconv.Atoi(parts[1])
 		}
@@ -1498,6 +1614,12 @@ func corpus() []desc {
 		{Mode: "replay", Conc: 1, MaxIP: 1, Ops: ops("serveconn:0~ serveconn:0? serveconn:0 serveconn:0~ serveconn:1? finish serveconn:0~!")},
 		{Mode: "replay", Conc: 1, MaxIP: 2, EndStop: 1, Ops: ops("servestart accept:0~ accept:0? accept:0 accept:0~ accept:1? accept:0! finish accept:0?! accept:3~")},
 		{Mode: "replay", Conc: 2, MaxIP: 1, Ops: ops("serveconn:0 hijack:0^ serveconn:0~ hijackdone serveconn:0? serveconn:0 finish")},
+		// TLS connections: acquirePerIPConn wraps a *tls.Conn in perIPTLSConn (its own Close / Unregister); rejected ones get their 429 / 503
+		// through the handshake; Close errors, silent clients, keep-alive, hijack, third-party close on them
+		{Mode: "replay", Conc: 2, MaxIP: 1, Ops: ops("serveconn:0+ serveconn:0+ next finish serveconn:0+! eof serveconn:0+~ serveconn:0+?! serveconn:0+ finish")},
+		{Mode: "replay", Conc: 1, MaxIP: 2, EndStop: 1, Ops: ops("servestart accept:0+ accept:0+ accept:3+! finish accept:0+ idle:0 closetwice:0 accept:0+! hijack hijackdone accept:0+ accept:0 finish finish")},
+		{Mode: "replay", Conc: 2, MaxIP: 1, Keep: true, Ops: ops("serveconn:0+! hijack hijackdone serveconn:0+ userclose serveconn:0+ idle userclose serveconn:0+ finish")},
+		{Mode: "replay", Conc: 2, MaxIP: 0, EndStop: 1, Ops: ops("servestart accept:0+ accept:1+ accept:2+ next finish finish")},
 		// workers are reused after release, and exit when their Serve has returned
 		{Mode: "replay", Conc: 2, MaxIP: 0, EndStop: 1, Ops: ops("servestart accept:0 accept:1 accept:2 finish:1 accept:2 servestop:0 finish:0 finish:0")},
 		// regression for the repaired finding peripconn-stale-close-hits-recycled-wrapper (bf2f4e5): a Close through an old reference
